@@ -80,5 +80,8 @@ func DrawEnv(u *hist.U, gaps []int64, absentOneIn int, txs []txgen.Tx) sim.Block
 	for _, tx := range txs {
 		spec.Txs = append(spec.Txs, tx.Bytes)
 	}
+	if u.N(30, "restart") == 0 {
+		spec.Restart = true // the node is stopped and started again before this block
+	}
 	return spec
 }
